@@ -1340,6 +1340,19 @@ def changed_for(G_, m, e0, e1):
     return False
 
 
+def contributed_by(G_, owner, var, s, mode):
+    """Does a line of the owner's table that is active under the mode contribute the string to the variable?"""
+    n, v = owner
+    if (n, v) not in G_.decl:
+        return False
+    for a in G_.acts(n, v, mode):
+        if a["a"] == "prepend" and a["var"] == var and s in [x for _, x in G_.values(n, v, a)]:
+            return True
+        if a["a"] == "set" and a["var"] == var and G_.value(n, v, a) == s:
+            return True
+    return False
+
+
 def guarded_value(G_, owner, s):
     """Is the string contributed by a line of the owner's table that sits inside an if (type == exact) / else block?"""
     n, v = owner
@@ -1385,6 +1398,14 @@ def check_request(G_, req, r, stats=None, mixed=False):
         if not residue(G_, e0) and not bad_dirs(G_, e0):
             cnt("c01_prior_ok")
             for var, s, o in residue(G_, e1):
+                # the claim is about environments eups itself produced (WellOwned in the theorems): an element under the
+                # directory of a set-up version that was there before the request and that no line of that version's
+                # table contributes under the setup type(s) of this (unmixed) history was put there by the generated
+                # prior ("contained": PATH already held <dir>/bin), not by eups — unwinding the table cannot remove it
+                if not mixed and s in (e0["paths"].get(var, []) + [e0["vars"].get(var)]) and e0["recs"].get(o[0]) == o[1] \
+                        and not contributed_by(G_, o, var, s, exact):
+                    cnt("c01_prior_foreign_own_element")
+                    continue
                 cls = "D17" if o[0] in cyc else ("D34" if mixed and guarded_value(G_, o, s) else None)
                 yield ("C01", "c_no_residue", cls, "%s holds %s of %s %s; records %r" % (var, s, o[0], o[1], e1["recs"]))
             for n, v in bad_dirs(G_, e1):
